@@ -11,6 +11,7 @@
   Companion theorems of the extracted facts (`C06_gen_*`) live in JRV/Properties/C06Gen.lean.
 -/
 import JRV.Model.Client
+import JRV.Model.ClientWire
 
 set_option linter.unusedSimpArgs false
 
@@ -283,6 +284,129 @@ theorem C06_full_statement_false : ¬ C06_full_statement := by
   have := (h [(.str "jsonrpc", .int 3), (.str "error", .str "boom")] (.str "boom") (by decide +kernel) (by decide +kernel)).1
   revert this
   decide +kernel
+
+/- ---------- the reply as it really arrives: bytes of an HTTP body read in pieces ---------- -/
+
+section Wire
+open JRV.Wire JRV.ClientWire
+
+private theorem c06_toBytes_toByteArray (s : String) : (toBytes s).toByteArray = s.toByteArray := by
+  apply ByteArray.ext
+  simp [toBytes, List.data_toByteArray]
+
+private theorem c06_fromBytes_toBytes (s : String) : fromBytes (toBytes s) = .ok s := by
+  unfold fromBytes
+  rw [c06_toBytes_toByteArray]
+  have hv : s.toByteArray.IsValidUTF8 := s.isValidUTF8
+  simp only [String.fromUTF8?, hv, ↓reduceDIte, pure, Except.pure]
+  rfl
+
+private theorem readChunks_flatten (n : Nat) (hn : 0 < n) : ∀ (k : Nat) (body : Bytes), body.length ≤ k →
+    (readChunks n body).flatten = body := by
+  intro k
+  induction k with
+  | zero =>
+    intro body hk
+    have : body = [] := List.eq_nil_of_length_eq_zero (by omega)
+    subst this
+    unfold readChunks
+    simp
+  | succ k ih =>
+    intro body hk
+    unfold readChunks
+    split
+    · rename_i h
+      rcases h with h | h
+      · omega
+      · simp [h]
+    · rename_i h
+      have hb : body ≠ [] := fun e => h (Or.inr e)
+      have hpos : 0 < body.length := List.length_pos_iff.mpr hb
+      have : (body.drop n).length ≤ k := by simp only [List.length_drop]; omega
+      rw [List.flatten_cons, ih _ this, List.take_append_drop]
+
+private theorem toBytes_eq_nil (s : String) (h : toBytes s = []) : s = "" := by
+  have h1 := c06_fromBytes_toBytes s
+  rw [h] at h1
+  have h2 : fromBytes [] = .ok "" := by
+    have := c06_fromBytes_toBytes ""
+    have h0 : toBytes "" = [] := by decide
+    rwa [h0] at this
+  rw [h2] at h1
+  exact (Except.ok.inj h1).symm
+
+/-- The text handed to the JSON parser is the text the peer sent, whatever the read size and wherever the cuts
+    fall — in particular when a multi-byte UTF-8 character lies on both sides of a multiple of 1024 bytes. -/
+theorem C06_wire_text (text : String) (n : Nat) (hn : 0 < n) : parseResponse n (toBytes text) = .text text := by
+  unfold parseResponse
+  have hf := readChunks_flatten n hn _ (toBytes text) (Nat.le_refl _)
+  by_cases he : readChunks n (toBytes text) = []
+  · have hb : toBytes text = [] := by rw [he] at hf; simpa using hf.symm
+    have := toBytes_eq_nil text hb
+    subst this
+    simp [he, clientClose]
+  · have : (readChunks n (toBytes text)).isEmpty = false := by
+      cases h : readChunks n (toBytes text) <;> simp_all
+    simp [clientClose, this, hf, c06_fromBytes_toBytes]
+
+/-- `_run_request` over the wire is the parser applied to the text that was sent (an empty body gives `None`). -/
+theorem C06_wire_run (parse : String → PyM PyVal) (text : String) (n : Nat) (hn : 0 < n) :
+    runRequest parse n (toBytes text) = if text.isEmpty then pure .none else parse text := by
+  simp [runRequest, C06_wire_text text n hn]
+
+/-- An error reply that arrives as bytes — any JSON parser, any non-empty text it parses to an object in the
+    1.0- or 2.0-form with a truthy error member, any read size — makes the proxy call AND the notification call raise
+    exactly the exception `errorOf` describes (then `C06_coded`, `C06_message`, `C06_raw`, `C06_appdata` say which). -/
+theorem C06_wire_error (parse : String → PyM PyVal) (text : String) (n : Nat) (hn : 0 < n)
+    (kvs : List (PyVal × PyVal)) (e : PyVal) (hne : text.isEmpty = false) (hp : parse text = .ok (.dict kvs))
+    (henv : envelopeOk kvs = true) (herr : lookupStr "error" kvs = some e) (ht : e.truthy = true) :
+    wireCall parse n (toBytes text) = .error (errorOf e) ∧ wireNotify parse n (toBytes text) = .error (errorOf e) := by
+  have hr : runRequest parse n (toBytes text) = .ok (.dict kvs) := by
+    rw [C06_wire_run parse text n hn]; simp [hne, hp]
+  constructor
+  · simp [wireCall, hr, bind, Except.bind, C06_proxy_error kvs e henv herr ht]
+  · simp [wireNotify, hr, bind, Except.bind, C06_notify_error kvs e henv herr ht]
+
+/-- A reply without a truthy error that arrives as bytes returns its `result` member unchanged. -/
+theorem C06_wire_result (parse : String → PyM PyVal) (text : String) (n : Nat) (hn : 0 < n)
+    (kvs : List (PyVal × PyVal)) (r : PyVal) (hne : text.isEmpty = false) (hp : parse text = .ok (.dict kvs))
+    (henv : envelopeOk kvs = true) (hres : lookupStr "result" kvs = some r)
+    (herr : ∀ e, lookupStr "error" kvs = some e → e.truthy = false) :
+    wireCall parse n (toBytes text) = .ok r := by
+  have hr : runRequest parse n (toBytes text) = .ok (.dict kvs) := by
+    rw [C06_wire_run parse text n hn]; simp [hne, hp]
+  simp [wireCall, hr, bind, Except.bind, C06_result_unchanged kvs r henv hres herr]
+
+/-- A MultiCall over the wire: an array reply is the result list the iterator reads (then `C06_multicall`,
+    `C06_iter_first_error`, `C06_list`, `C06_unpack_error` apply to it); a single error object answering the whole
+    batch makes the batch call raise it. -/
+theorem C06_wire_multicall (parse : String → PyM PyVal) (text : String) (n : Nat) (hn : 0 < n) (hne : text.isEmpty = false) :
+    (∀ xs, xs ≠ [] → parse text = .ok (.list xs) → wireMulticall parse n (toBytes text) = .ok xs) ∧
+    (∀ kvs e, parse text = .ok (.dict kvs) → envelopeOk kvs = true → lookupStr "error" kvs = some e → e.truthy = true →
+      wireMulticall parse n (toBytes text) = .error (errorOf e)) := by
+  have hr : runRequest parse n (toBytes text) = parse text := by
+    rw [C06_wire_run parse text n hn]; simp [hne]
+  constructor
+  · intro xs hx hp
+    simp [wireMulticall, hr, hp, bind, Except.bind, C06_batch_array xs hx]
+  · intro kvs e hp henv herr ht
+    simp [wireMulticall, hr, hp, bind, Except.bind, C06_batch_single_error kvs e henv herr ht]
+
+/-- Why the order "join, then decode" matters (and what a piecewise decoding would do): `é` read one byte at a time. -/
+theorem C06_wire_piecewise_decoding_differs :
+    parseResponse 1 (toBytes "é") = .text "é" ∧
+    (∃ err, decodeChunkwise (readChunks 1 (toBytes "é")) = .error err) := by
+  refine ⟨C06_wire_text "é" 1 (by decide), ?_⟩
+  have h : readChunks 1 (toBytes "é") = [[195], [169]] := by
+    have hb : toBytes "é" = [195, 169] := by decide +kernel
+    rw [hb]
+    unfold readChunks; simp
+    unfold readChunks; simp
+    unfold readChunks; simp
+  rw [h]
+  exact ⟨{ cls := "UnicodeDecodeError", arg := .none }, by decide +kernel⟩
+
+end Wire
 
 /- Non-vacuity: concrete envelopes meeting the hypotheses, and concrete outcomes. -/
 example : envelopeOk [(.str "jsonrpc", .float ⟨false, 2, 0⟩), (.str "id", .int 1),
